@@ -123,6 +123,11 @@ type Sim struct {
 
 var cur *Sim
 
+var epoch uint64
+
+// Epoch identifies the current run (objects that must not outlive a run compare it).
+func Epoch() uint64 { return epoch }
+
 // Active reports whether a simulation is running.
 func Active() bool { return cur != nil }
 
@@ -164,6 +169,7 @@ func Run(tape *Tape, cfg Config, main func(), onStuck func()) *Outcome {
 		sort.Ints(s.pctNext)
 	}
 	cur = s
+	epoch++
 	defer func() { cur = nil }()
 	s.spawn("main", main)
 	s.loop()
@@ -258,6 +264,7 @@ func (t *Task) park() {
 func (s *Sim) loop() {
 	horizon := time.NewTimer(s.cfg.Horizon)
 	defer horizon.Stop()
+	horizonFired := false
 	for {
 		synctest.Wait()
 		s.mu.Lock()
@@ -314,13 +321,20 @@ func (s *Sim) loop() {
 			}
 			// Everyone is blocked. Let simulated time move to the next timer; if that is our own
 			// horizon timer nothing else can ever happen.
-			horizon.Reset(s.cfg.Horizon)
-			select {
-			case <-s.wake:
+			if !horizonFired {
+				horizon.Reset(s.cfg.Horizon)
+				select {
+				case <-s.wake:
+					continue
+				case <-horizon.C:
+				}
+				s.jumps++
+				// Simulated time has passed without waking any task (e.g. a context deadline nobody
+				// was blocked on): WaitUntil conditions may have become true, so look once more.
+				horizonFired = true
 				continue
-			case <-horizon.C:
 			}
-			s.jumps++
+			horizonFired = false
 			// Fully stuck: wake WaitStuck waiters if any.
 			woke := false
 			s.mu.Lock()
@@ -349,6 +363,7 @@ func (s *Sim) loop() {
 			}
 			return
 		}
+		horizonFired = false
 		s.out.Steps++
 		if s.out.Steps > s.cfg.MaxSteps {
 			s.out.Verdict = "stepcap"
